@@ -160,25 +160,26 @@ CLAIMS.update({
 # technique additions of the second building round (rule names as in props.go / DESIGN.md A.2)
 EXTRA = {
  "C01": "fresh-backing-array analysis of struct copies whose slice fields are written in place; typestate/dominance analysis of the lookahead token in every parse(); reset and per-item dataflow rules; final-state guard of minimize",
- "C02": "floor of the trailing-empty trimming loops; typestate analysis of p.next positions; audited field-role table for syntax.Input flags",
+ "C02": "floor of the trailing-empty trimming loops; typestate analysis of p.next positions; audited field-role table for syntax.Input flags; equality of merged list expressions including the node type of nested arrows",
  "C03": "decision table of conflictBuilder.hasConflict; min-update idiom check of the SCC pass; sentinel-index guards; planner scenarios of ruleAction",
  "C04": "all-pairs-store path check of Optimize rows; operand-order check of compiler.or",
- "C05": "scratch-histogram reset analysis; loop-bound check of the bit-set scans; option-key to field map; same-name plumbing of lalr.Options; default-table fallback at every decode site of the generated parsers",
+ "C05": "scratch-histogram reset analysis; loop-bound check of the bit-set scans; option-key to field map; same-name plumbing of lalr.Options; default-table fallback at every decode site of the generated parsers; reference-side end-of-block check of DefaultEnc.gotoState; substitution of unfilled cells independent of the chosen default",
  "C06": "trailing-nullable component of the rule-class key; cast-action key coverage; seen-set de-duplication of remapped marker states; final-state guard; lock-step of the two rule copies; injectivity of lookahead-row signature elements; memo-key agreement with generated lookahead()",
  "C07": "lost-write analysis of range copies (trie minimisation); phase coverage of terminal-transition follow sets; exhaustion of collecting loops; who-may-call rule for Lexer.Next; propagation of unresolved trie nodes; loop-carried scratch copy of deep lookahead; scan-termination sibling check of lookahead rows",
  "C08": "decision-table extraction of pickLookahead (120 polarity sequences) and of ruleAction's planner branch; memo-key agreement",
+ "C09": "cursor-minus-constant clause on the size flow of Tables.Scan (rune mode advances by a variable width)",
  "C10": "finite-state exploration of in-place range filters (len(out)-i); call-order of class assembly; Offset/Column lock-step",
- "C11": "reserved-token constant agreement of canInlineRules; stale-offset check of rewind; reader/writer agreement of the compressed rune map; checkpoint reset on every edge into the scan loop; declaration-implies-maintenance formulas for line/lineOffset in the lexer template; end-of-input cycle check of the generator; single-line token comments",
+ "C11": "reserved-token constant agreement of canInlineRules; stale-offset check of rewind; reader/writer agreement of the compressed rune map; checkpoint reset on every edge into the scan loop; declaration-implies-maintenance formulas for line/lineOffset in the lexer template; end-of-input cycle check of the generator; single-line token comments; decision table of rune folding; lost-write analysis of range copies in the lexer compiler",
  "C12": "cursor step discipline; reader/writer agreement of the compressed rune map; checkpoint reset; declaration-implies-maintenance formulas for line/lineOffset; end-of-input cycle check of the generator",
  "C13": "terminal-boundary comparison audit; separator placement under the recursion flag; path guard of dropped Empty children",
  "C14": "scratch bit-set reset scopes; name-based provenance of Arg.TakeFrom; path guard of dropped Empty children; terminal-boundary comparison audit (48 sites); wrapper order of convertRules; escape analysis through callees that retain slices; renumbering coverage",
  "C15": "all-paths reachability of the set-contribution test; first-match shape of the input seeding loop; copy-source guard of named-set slots",
- "C16": "marker-free remap counter; Pos coverage of extracted references; sharing-key and renumbering field coverage; comma-ok discipline of ActionVars.Remap; name propagation out of nested groups",
- "C17": "free-name guard of the synthetic TokenSet category; once-per-key emission of Go declarations; interning-pair rule; decision-table agreement of NeedsSession with the template's session struct; all-paths enumeration of file selection against template imports; call/definition arity agreement on template trees; template guard-formula rules for struct fields, node type identifiers and predicate chains (all truth assignments of the option atoms)",
+ "C16": "marker-free remap counter; Pos coverage of extracted references; sharing-key and renumbering field coverage; comma-ok discipline of ActionVars.Remap; name propagation out of nested groups; top-level invariant of rhsRule.top (stores are nil, tested with isTopLevel, or another rule's .top)",
+ "C17": "free-name guard of the synthetic TokenSet category; once-per-key emission of Go declarations; interning-pair rule; decision-table agreement of NeedsSession with the template's session struct; all-paths enumeration of file selection against template imports; call/definition arity agreement on template trees; template guard-formula rules for struct fields, node type identifiers and predicate chains (all truth assignments of the option atoms); guard-formula agreement of every `ctx, ` argument with the callee's parameter and the enclosing function's scope; separator-in-slice condition of the import alias elision",
  "C18": "global map aliased through struct fields; mutating methods of sync containers held in package-level variables; ordered-comparison requirement for comparators that discharge a map iteration",
  "C19": "constant propagation of stream.recoveryMode; histogram reset range; end-of-input guard of the token-skipping loop; nil-stack guard of the js token stream",
  "C20": "must-write analysis of Init (and of parse() for Parser) for every run-state field of Lexer/Parser/TokenStream",
- "C21": "fresh-backing-array analysis of copied field records; child test of addNode; save/restore dominance; sibling check of the two Tarjan implementations; unconditional rule-class key components",
+ "C21": "fresh-backing-array analysis of copied field records; child test of addNode; save/restore dominance; sibling check of the two Tarjan implementations; unconditional rule-class key components; compare-and-store agreement of min updates in syntax; residue-with-quotient rule for the bit test of generated selectors; equality of merged list expressions including arrow types",
  "C22": "lookup-index guard; in-progress memo reachability and mark-before-descend dominance; valid-anchor guard for optional nodes; Origin coverage of every syntax.Expr literal; next-element bound of range loops; sentinel inside the follow-set universe",
  "C23": "source-cursor bounds of the grammar lexer; sentinel-index guards in verbose conflict explanations; memoised recursions of the compiler; no success return of a change handler bypasses typecheck",
  "C25": "in-place merge exploration; min-update idiom and Tarjan sibling checks",
